@@ -19,6 +19,8 @@ def policyOf : String → Option Cfg
   | "proj" => some { hash := .checked, rtti := .projected }
   | "deferred" => some { hash := .checked, rtti := .deferred }
   | "backward" => some { hash := .fast, err := .backward }
+  | "gen" => some { vptrMap := true }
+  | "genh" => some { vptrMap := true }
   | "fastA" => some { hash := .fast }
   | "fastB" => some { hash := .fast }
   | "fastC" => some { hash := .fast }
@@ -40,6 +42,7 @@ structure DState where
   dead : Bool := false
   slist : SList := {}
   vars : List (String × VPtr) := []
+  encoded : Option Emitted := none
   /-- oracle mode: the pointee class of each `virtual_ptr` variable -/
   ovars : List (String × Nat) := []
   oracle : Bool := false
@@ -208,6 +211,9 @@ def step (d : DState) (tok : List String) : DState × List String :=
       if d.pols.any (fun e => e.1 == n) then ({ d with cur := some n }, [])
       else ({ d with cur := some n, pols := d.pols ++ [(n, { cfg := cfg })] }, [])
   | "echo" :: rest => (d, ["@" ++ rest.headD ""])
+  | "fwd-names" :: names =>
+    (d, ["fwd " ++ (writeForwardDeclarations (sortedSet (names.flatMap (extractNames Generated.keywords)))).replace "\n" "|"])
+  | "fwd-type" :: _ => (d, ["fwd-type needs the raw line"])
   | "lpush" :: n :: _ => ({ d with slist := d.slist.pushBack (n.toNat?.getD 0) }, [])
   | "lremove" :: n :: _ => ({ d with slist := d.slist.remove (n.toNat?.getD 0) }, [])
   | "lclear" :: _ => ({ d with slist := d.slist.clear 256 }, [])
@@ -286,6 +292,48 @@ def step (d : DState) (tok : List String) : DState × List String :=
           else (d, [s!"update raised hash_search attempts={a} buckets={b}"])
         | .raised (.fault w) => (d, [s!"update fault {w}"])
       | "dump", _ => (d, dump s)
+      | "offsets", _ =>
+        match s.inst with
+        | none => (d, [])
+        | some inst =>
+          (d, (List.zipIdx s.methods).map (fun (m, mi) =>
+            "offsets " ++ writeStaticOffsets s!"M{m.key}" m.vp.length ((inst.ss[mi]?).getD [])))
+      | "encode", _ =>
+        match s.compiled with
+        | none => (d, ["skipped: no completed update"])
+        | some c =>
+          let em := encode c
+          ({ d with encoded := some em },
+           [s!"encoded headroom={em.headroom} slots={em.slotsN} vtbls={em.encN} decoded={em.decN} dtbls={em.dtblN}",
+            s!"enc-slots {fmtNats em.slots}", s!"enc-vtbls {fmtNats em.vtbls}", s!"enc-dtbls {fmtNats em.dtbls}"])
+      | "decode", _ =>
+        match d.encoded, s.compiled with
+        | some em, some c =>
+          let ms := c.methods.map (fun m => (m.vp.length, m.specs.length))
+          let cells := s.classes.map (fun e => s.cfg.proj e.2.id)
+          match decode em ms cells with
+          | .error (.fault w) => (d, [s!"decode fault {w}"])
+          | .error _ => (d, ["decode fault"])
+          | .ok dec =>
+            let methodKey := fun (mi : Nat) => (c.methods[mi]?.map (·.key)).getD 0
+            let defId := fun (mi i : Nat) => ((c.methods[mi]?.bind (fun m => m.specs[i]?)).map (·.1)).getD 0
+            let w := fun (x : DWord) => match x with
+              | .fn m cl => s!"F{methodKey m}." ++ cellStr (defId m) cl
+              | .tbl i => s!"T{i}"
+              | .num n => s!"N{n}"
+            let recLines := (s.classes.zip dec.vptrs).map (fun (e, v) =>
+              -- a skipped record shares the cell of an earlier one
+              let vp := match v with
+                | some x => x
+                | none =>
+                  let k := s.cfg.proj e.2.id
+                  (((s.classes.zip dec.vptrs).find? (fun (p : (Nat × ClassRec) × Option Int) => s.cfg.proj p.1.2.id == k && p.2.isSome)).bind (·.2)).getD 0
+              s!"dclass {e.2.id} vp={vp}")
+            let inst := dec.toInstalled
+            (d.set { s with inst := some inst },
+             ["decode ok"] ++ recLines ++ [s!"dvtbls {fmtList w dec.vtbls}", s!"ddtbls {fmtList w dec.dtbls}"] ++
+               (List.zipIdx c.methods).map (fun (m, mi) => s!"dss {m.key} {fmtNats ((dec.ss[mi]?).getD [])}"))
+        | _, _ => (d, ["skipped: nothing encoded"])
       | "lookup", _ =>
         match s.inst with
         | none => (d, ["skipped: no completed update"])
@@ -352,7 +400,11 @@ partial def loop (h : IO.FS.Stream) (out : IO.FS.Stream) (d : DState) : IO Unit 
   else if d.dead then loop h out d
   else
     let tok := (l.splitOn " ").filter (fun t => !t.isEmpty)
-    if tok.isEmpty || l.startsWith "#" then loop h out d
+    if l.startsWith "fwd-type" then
+      let ty := ((l.drop 8).toString.trimAscii).toString
+      out.putStrLn ("fwd " ++ (writeForwardDeclarations (sortedSet (extractNames Generated.keywords ty))).replace "\n" "|")
+      loop h out d
+    else if tok.isEmpty || l.startsWith "#" then loop h out d
     else
       let (d', lines) := step d tok
       for x in lines do out.putStrLn x
